@@ -55,6 +55,16 @@ Theorem C05_float_kind : forall (l : list N) (m : N) (e : Z) (rest : list N),
   exists ib c tl, l = ib ++ c :: tl /\ Forall (char_ok 10) ib /\ (c = c_DOT \/ c = c_e \/ c = c_E).
 Proof. exact lex_number_float. Qed.
 
+(** Every float token carries the exact decimal value of a well-formed float literal: the text
+    splits into integer part, optional point + fraction part, optional exponent part (e|E,
+    optional sign, at least one digit) and the rest, each part a run of decimal digits and
+    separators, at least one mantissa digit; m is the Horner value of all mantissa digits and
+    e = (signed exponent) - (number of fraction digits), so the literal's value is m * 10^e; and
+    that value does not round to infinity.  For ALL byte strings. *)
+Theorem C05_float_value : forall (l : list N) (m : N) (e : Z) (rest : list N),
+  lex_number l = NOk (TFloat m e) rest -> float_literal l m e rest.
+Proof. exact lex_number_float_literal. Qed.
+
 (** The signed conversion: the result is exactly +v or -v and lies in the i64 range; a value
     outside the range is an error, never a wrapped value; inside the range it always succeeds
     (including -2^63). *)
